@@ -165,6 +165,7 @@ type Violation struct {
 type PathResult struct {
 	Status       string       `json:"status"` // done | assume | infeasible | inconclusive | panic | steps
 	Why          string       `json:"why,omitempty"`
+	Where        string       `json:"where,omitempty"`
 	New          [][]Decision `json:"new,omitempty"`
 	Violations   []Violation  `json:"violations,omitempty"`
 	Reach        []string     `json:"reach,omitempty"`
